@@ -197,14 +197,40 @@ func derivedByAssert(x, v ssa.Value) bool {
 
 // loadedFromObj: v is (a slice of) a slice/pointer field value loaded from obj earlier
 func loadedFromObj(v ssa.Value, obj ssa.Value) bool {
-	v = baseObj(v)
-	fv, base := loadedField(v)
-	if fv == nil {
+	return loadedFromObjN(v, obj, 0, map[ssa.Value]bool{})
+}
+
+// loadedFromObjN follows slices, phis, append and appender-shaped calls (result shares the
+// backing array of the first slice argument) back to a load of a slice/pointer field of obj.
+func loadedFromObjN(v ssa.Value, obj ssa.Value, depth int, seen map[ssa.Value]bool) bool {
+	if depth > 10 || v == nil || seen[v] {
 		return false
 	}
-	switch fv.Type().Underlying().(type) {
-	case *types.Slice, *types.Pointer:
-		return sameObj(base, obj)
+	seen[v] = true
+	v = baseObj(v)
+	if fv, base := loadedField(v); fv != nil {
+		switch fv.Type().Underlying().(type) {
+		case *types.Slice, *types.Pointer:
+			return sameObj(base, obj)
+		}
+		return false
+	}
+	switch x := v.(type) {
+	case *ssa.Phi:
+		for _, e := range x.Edges {
+			if loadedFromObjN(e, obj, depth+1, seen) {
+				return true
+			}
+		}
+	case *ssa.Call:
+		if _, isSlice := x.Type().Underlying().(*types.Slice); !isSlice {
+			return false
+		}
+		for _, a := range x.Call.Args {
+			if types.Identical(a.Type(), x.Type()) {
+				return loadedFromObjN(a, obj, depth+1, seen)
+			}
+		}
 	}
 	return false
 }
@@ -339,8 +365,11 @@ func (a *a13) checkFunc(f *ssa.Function, rules string) {
 			return
 		}
 		for _, arg := range c.Call.Args {
-			fv, base := loadedField(arg)
-			if fv == nil || !isByteSlice(fv.Type()) || !isPointer(base.Type()) || !a.pooled[namedOf(base.Type())] {
+			if !isByteSlice(arg.Type()) {
+				continue
+			}
+			base := pooledOwnerOf(a, f, arg)
+			if base == nil {
 				continue
 			}
 			a.nSplice++
@@ -419,4 +448,17 @@ func phiIncludesAssertOf(w ssa.Value, pv ssa.Value) bool {
 		}
 	}
 	return false
+}
+
+// pooledOwnerOf: the pooled object (parameter or local of a pooled type) whose buffer arg is, or is derived from.
+func pooledOwnerOf(a *a13, f *ssa.Function, arg ssa.Value) ssa.Value {
+	if fv, base := loadedField(arg); fv != nil && isByteSlice(fv.Type()) && isPointer(base.Type()) && a.pooled[namedOf(base.Type())] {
+		return base
+	}
+	for _, p := range f.Params {
+		if isPointer(p.Type()) && a.pooled[namedOf(p.Type())] && loadedFromObj(arg, p) {
+			return p
+		}
+	}
+	return nil
 }
